@@ -252,19 +252,28 @@ def handle (j : Json) : R Json := do
     let td ← getTD (← field j "td")
     let probes ← getArr (fun p => do
       match (← p.getArr?).toList with
-      | [k, x, t] => pure (← k.getStr?, ← getRat x, ← getTag t)
+      | [k, x, t] => pure (← k.getStr?, ← getRat x, ← getTag t, Tag.stop)
+      | [k, x, t, t2] => pure (← k.getStr?, ← getRat x, ← getTag t, ← getTag t2)
       | _ => throw "probe expected") (← field j "probes")
-    pure (jArr (fun (p : String × Rat × Tag) =>
+    let e := mkEngine td
+    pure (jArr (fun (p : String × Rat × Tag × Tag) =>
+      let x := p.2.1; let t := p.2.2.1; let t2 := p.2.2.2
       match p.1 with
-      | "time_at" => jRat (timeAt td p.2.1 p.2.2)
-      | "spec_time" => jRat (Spec.timeSpec td p.2.1 p.2.2)
-      | "bpm_at" => jRat (bpmAt td p.2.1)
-      | "spec_bpm" => jRat (if p.2.1 < 0 then (td.bpms.headD (0,0)).2 else Spec.bpmOn td p.2.1)
-      | "hittable" => jBool (hittable td p.2.1)
-      | "spec_hittable" => jBool (Spec.hittableSpec td p.2.1)
-      | "beat_at" => jRat (beatAt td p.2.1 p.2.2)
-      | "beat_at_old" => jRat (beatAtOld td p.2.1 p.2.2)
-      | "beat_at_time_at" => jRat (beatAt td (timeAt td p.2.1 p.2.2) p.2.2)
+      | "time_at" => jRat (e.timeAt x t)
+      | "spec_time" => jRat (Spec.timeSpec td x t)
+      | "bpm_at" => jRat (e.bpmAt x)
+      | "spec_bpm" => jRat (if x < 0 then (td.bpms.headD (0,0)).2 else Spec.bpmOn td x)
+      | "hittable" => jBool (e.hittable x)
+      | "spec_hittable" => jBool (Spec.hittableSpec td x)
+      | "beat_at" => jRat (e.beatAt x t)
+      | "beat_at_raw" => (match (e.priorByTime x t).beatsUntilRaw x with | some r => jRat ((e.priorByTime x t).beat + r) | none => Json.null)
+      | "beat_at_old" => jRat (e.beatAtOld x t)
+      | "beat_at_time_at" => jRat (e.beatAt (e.timeAt x t) t2)
+      | "beat_at_in_pause" =>
+        -- x = paused beat, t = STOP or DELAY, fraction of the pause encoded by t2 (WARP=.001, BPM=.5, STOP_END=.999)
+        let len := ((if t = .stop then td.stops else td.delays).find? (·.1 = x)).map (·.2) |>.getD 0
+        let f : Rat := if t2 = .warp then 1/1000 else if t2 = .bpm then 1/2 else 999/1000
+        jRat (e.beatAt (e.timeAt x t + len * f) .stop)
       | _ => Json.null) probes)
   | "engine.states" =>
     let td ← getTD (← field j "td")
@@ -272,9 +281,11 @@ def handle (j : Json) : R Json := do
   | "engine.time_notes" =>
     let td ← getTD (← field j "td")
     let f := fun (r : Rat × Note) => Json.arr #[jRat r.1, jNote r.2]
-    pure (Json.mkObj [
-      ("model", jArr f (timeNotes td (← getUnhittable (← field j "opt")) (← getArr getNote (← field j "notes")))),
-      ("spec", jArr f (Spec.timeNotesSpec td (← getUnhittable (← field j "opt")) (← getArr getNote (← field j "notes"))))])
+    pure (jArr f (timeNotes td (← getUnhittable (← field j "opt")) (← getArr getNote (← field j "notes"))))
+  | "spec.time_notes" =>
+    let td ← getTD (← field j "td")
+    let f := fun (r : Rat × Note) => Json.arr #[jRat r.1, jNote r.2]
+    pure (jArr f (Spec.timeNotesSpec td (← getUnhittable (← field j "opt")) (← getArr getNote (← field j "notes"))))
   -- objects
   | "obj.ser_sm" => pure (jArr jItem (serSM (← getSM (← field j "sf"))))
   | "obj.ser_ssc" => pure (jExcept jObjErr (jArr jItem) (serSSC (← getSSC (← field j "sf"))))
